@@ -73,14 +73,14 @@ fn is_printable_ascii(byte: u8) -> bool {
 #[derive(Clone)]
 pub struct Enumerator<'a> {
 	base: u32,
-	offset: u32,
+	offset: usize,
 	bytes: &'a [u8],
 	config: Config,
 }
 impl<'a> Iterator for Enumerator<'a> {
 	type Item = Found<'a>;
 	fn next(&mut self) -> Option<Found<'a>> {
-		let mut start = self.offset as usize;
+		let mut start = self.offset;
 		let mut i = start;
 		let bytes = self.bytes;
 		match self.config.heuristic {
@@ -92,13 +92,13 @@ impl<'a> Iterator for Enumerator<'a> {
 					}
 					else if bytes[i as usize] == b'\0' {
 						if i - start >= self.config.min_length_nul as usize {
-							self.offset = (i + 1) as u32;
+							self.offset = i + 1;
 							return Some(Found::nul(&bytes[start..i], self.base.wrapping_add(start as u32)));
 						}
 					}
 					else if !self.config.strict_nul {
 						if i - start >= self.config.min_length as usize {
-							self.offset = (i + 1) as u32;
+							self.offset = i + 1;
 							return Some(Found::non_nul(&bytes[start..i], self.base.wrapping_add(start as u32)));
 						}
 					}
@@ -107,7 +107,7 @@ impl<'a> Iterator for Enumerator<'a> {
 				}
 				if start != i {
 					if !self.config.strict_nul && i - start >= self.config.min_length as usize {
-						self.offset = i as u32;
+						self.offset = i;
 						return Some(Found::non_nul(&bytes[start..i], self.base.wrapping_add(start as u32)));
 					}
 				}
